@@ -35,6 +35,7 @@ fn dispatch(st: &mut State, scn: &Value) -> Value {
             st.verify.get_or_insert_with(|| verify::Ctx::new(&common::family(), &prop)).run(scn, ev, pin)
         }
         "C20" => c20::run(scn),
+        "C12" => if scn["kind"] == "path" { c12::run_path(scn) } else { c12::run_table(scn, &common::family()) },
         "LIFE" => st.life.get_or_insert_with(|| lifecycle::Ctx::new(&common::family())).run(scn),
         "C10" => c10::run(scn, &mut common::rng(10 + scn["i"].as_u64().unwrap_or(0) + 1000003 * std::env::var("ITV_SALT").ok().and_then(|s| s.parse::<u64>().ok()).unwrap_or(0))),
         "C11" => st.c11.get_or_insert_with(c11::Ctx::new).run(scn),
